@@ -2,9 +2,11 @@ package txnh
 
 import (
 	"fmt"
+	"os"
 	"sort"
 	"strings"
 
+	"github.com/pingcap/kvproto/pkg/kvrpcpb"
 	"github.com/tikv/client-go/v2/verifrt/sched"
 )
 
@@ -13,6 +15,8 @@ type Truth struct {
 	Keys     []string
 	Versions map[string][]Version // newest first
 	Locks    []LockRec
+	Splits   []string    // region split keys of the layout (for classifying findings)
+	Log      []RPCRecord // RPC log of the execution (for classifying findings)
 	// CommitOf: start ts -> commit ts for every transaction that has a data/lock record on some key
 	CommitOf map[uint64]uint64
 }
@@ -58,6 +62,58 @@ func (t *Truth) VisibleBefore(key string, ts uint64, self uint64) (string, bool)
 		}
 	}
 	return "", false
+}
+
+// committedAfterCheck reports whether the newest version of key below ts (not by self) was
+// committed by an RPC applied after self's last prewrite that carried the existence check for key.
+func (t *Truth) committedAfterCheck(self uint64, key string, ts uint64) bool {
+	var other uint64
+	for _, v := range t.Versions[key] {
+		if v.CommitTS >= ts || v.StartTS == self {
+			continue
+		}
+		other = v.StartTS
+		break
+	}
+	checkSeq, commitSeq := 0, 0
+	for _, r := range t.Log {
+		if r.Err != nil || r.Resp == nil {
+			continue
+		}
+		switch q := r.Req.Req.(type) {
+		case *kvrpcpb.PrewriteRequest:
+			for _, m := range q.Mutations {
+				if string(m.Key) != key {
+					continue
+				}
+				if q.StartVersion == self && m.Op == kvrpcpb.Op_CheckNotExists {
+					checkSeq = r.Seq
+				}
+				if q.StartVersion == other && (q.TryOnePc || q.UseAsyncCommit) && commitSeq == 0 {
+					commitSeq = r.Seq // may be the commit point for 1PC / async commit
+				}
+			}
+		case *kvrpcpb.CommitRequest:
+			if q.StartVersion == other {
+				for _, k := range q.Keys {
+					if string(k) == key && commitSeq == 0 {
+						commitSeq = r.Seq
+					}
+				}
+			}
+		case *kvrpcpb.ResolveLockRequest:
+			if q.StartVersion == other && q.CommitVersion > 0 && commitSeq == 0 {
+				commitSeq = r.Seq
+			}
+		}
+	}
+	if os.Getenv("VERIF_DEBUG") != "" {
+		fmt.Fprintf(os.Stderr, "committedAfterCheck self=%d key=%s ts=%d other=%d checkSeq=%d commitSeq=%d\n", self, key, ts, other, checkSeq, commitSeq)
+		for _, r := range t.Log {
+			fmt.Fprintf(os.Stderr, "  #%d c%d %s type=%T err=%v\n", r.Seq, r.Client, r.Label, r.Req.Req, r.Err)
+		}
+	}
+	return checkSeq > 0 && commitSeq > checkSeq
 }
 
 func short(s string) string {
@@ -163,6 +219,15 @@ func AuditSI(h *History, t *Truth) []sched.Violation {
 			switch r.Kind {
 			case "get", "bget", "lockrv":
 				for _, k := range r.Keys {
+					skip := false
+					for _, sk := range r.Skip {
+						if sk == k {
+							skip = true
+						}
+					}
+					if skip {
+						continue
+					}
 					ev, eok := expect(k)
 					gv, gok := r.Got[k]
 					if eok != gok || ev != gv {
@@ -201,6 +266,19 @@ func AuditSI(h *History, t *Truth) []sched.Violation {
 					sort.Sort(sort.Reverse(sort.StringSlice(want)))
 				}
 				if strings.Join(want, ",") != strings.Join(r.Order, ",") {
+					if r.Kind == "riter" && r.Hi == "" && len(t.Splits) > 0 {
+						// classify: an unbounded reverse scan that yields exactly the keys of the first region
+						var first []string
+						for _, k := range want {
+							if k < t.Splits[0] {
+								first = append(first, k)
+							}
+						}
+						if strings.Join(first, ",") == strings.Join(r.Order, ",") {
+							add("si:read:riter:unbounded-upper-sees-only-first-region", "%s (start=%d): reverse iteration from the end of the key space yielded %v, MVCC truth %v (region splits %v)", x.Prog, x.StartTS, r.Order, want, t.Splits)
+							continue
+						}
+					}
 					add("si:read:"+r.Kind+":keys", "%s (start=%d): %s[%s,%s) yielded keys %v, MVCC truth %v", x.Prog, x.StartTS, r.Kind, r.Lo, r.Hi, r.Order, want)
 					continue
 				}
@@ -218,6 +296,12 @@ func AuditSI(h *History, t *Truth) []sched.Violation {
 		// (4) insert
 		for k := range x.Inserted {
 			if v, ok := t.VisibleBefore(k, cts, x.StartTS); ok {
+				if w := x.Writes[k]; w.Del && w.Insert && !x.Mode.Pessimistic && t.committedAfterCheck(x.StartTS, k, cts) {
+					// insert-then-delete is sent as a non-locking existence check; the other transaction's
+					// commit was applied after that check and before this transaction's commit
+					add("si:insert-then-delete:key-committed-between-existence-check-and-commit", "%s (start=%d commit=%d): insert(%s);delete(%s) committed although %s=%q was committed (after the existence check passed) before its commit point", x.Prog, x.StartTS, cts, k, k, k, v)
+					continue
+				}
 				add("si:insert-over-existing", "%s (start=%d commit=%d) declared %s an insert and committed, but %s had value %q at its commit point", x.Prog, x.StartTS, cts, k, k, v)
 			}
 		}
